@@ -25,8 +25,31 @@ pub enum Sched {
 
 /// An `io::Error` of kind `k` as a transport would really produce it: sometimes the bare kind, sometimes
 /// with a short custom message, sometimes with a LONG localised message (multi-byte characters at varying
-/// alignment around bytes 32…300) — code that stores, clips or formats the message must cope with all.
+/// alignment around bytes 32…300), sometimes as a raw OS error — code that stores, clips or formats the message, or
+/// inspects the error's representation, must cope with all.
 pub fn fault(k: io::ErrorKind, salt: usize) -> io::Error {
+    // what a real socket produces: an OS-level error (raw errno), whose kind std derives from the number
+    if salt % 8 == 7 {
+        let errno = match k {
+            io::ErrorKind::ConnectionReset => Some(104),
+            io::ErrorKind::BrokenPipe => Some(32),
+            io::ErrorKind::TimedOut => Some(110),
+            io::ErrorKind::WouldBlock => Some(11),
+            io::ErrorKind::Interrupted => Some(4),
+            io::ErrorKind::PermissionDenied => Some(13),
+            io::ErrorKind::ConnectionRefused => Some(111),
+            io::ErrorKind::NotFound => Some(2),
+            io::ErrorKind::InvalidInput => Some(22),
+            io::ErrorKind::OutOfMemory => Some(12),
+            _ => None,
+        };
+        if let Some(e) = errno {
+            let err = io::Error::from_raw_os_error(e);
+            if err.kind() == k {
+                return err;
+            }
+        }
+    }
     match salt % 7 {
         6 => {
             // a layered transport built on this very crate: the payload is one of the codec's OWN errors
